@@ -677,3 +677,26 @@ func verifC03_ServerAddr() {
 
 func vGoCacheGet(c *cache.Cache, k string) (interface{}, bool)             { return nil, false }
 func vGoCacheSet(c interface{}, k string, x interface{}, d time.Duration) {}
+
+// verifC11_ClosedPoolServes (C11, registered there): "a request that already holds the old
+// generation still completes" through a Proxy - an update closes the pools of the old generation
+// (it stops following the service registry); a request that took the old generation just before
+// is still forwarded to the servers the pool last knew.
+func verifC11_ClosedPoolServes() {
+	vSymbolicRequest = false
+	sp, _ := vPool(0, 0)
+	sp.done = make(chan struct{})
+	fnSendRequest = vSend
+	vOutcome = func(attempt int) (*http.Response, error) {
+		return &http.Response{StatusCode: 200, Header: http.Header{"X-Backend": []string{"b"}}, Body: &vBody{data: []byte{7}}, ContentLength: 1}, nil
+	}
+	ctx, _, _ := vClientRequest([]byte{1}, false)
+	if verifBool("generation-closed-by-an-update-while-the-request-holds-it") {
+		sp.close()
+		verifCover("old-generation-closed")
+	}
+	vNSends = 0
+	result := sp.handle(ctx, false)
+	resp, _ := ctx.GetOutputResponse().(*httpprot.Response)
+	verifAssert(result == "" && vNSends == 1 && resp != nil && resp.StatusCode() == 200, "request-holding-the-old-generation-still-completes")
+}
